@@ -202,6 +202,9 @@ class JsonSchemaParser:
     @classmethod
     def get_attname(cls, name: str, excludes: list = None):
         name = re.sub(cls.NON_NAME_REG, '_', name).strip('_')
+        if not name or name[0].isdigit():
+            # nothing usable is left (or a digit leads): still hand out an identifier
+            name = f'field_{name}' if name else 'field'
         if keyword.iskeyword(name):
             name += '_value'
         if excludes:
@@ -253,6 +256,10 @@ class JsonSchemaParser:
             else additional_properties,
         )
 
+        # names an attribute must not take: what the base class defines (mapping methods, parser attributes)
+        # and the other property keys (a key is accepted as input under its own name)
+        reserved = set(dir(self.object_base_cls))
+
         for key, prop in properties.items():
             prop = prop or {}
             field_required = key in required if required else False
@@ -263,8 +270,9 @@ class JsonSchemaParser:
             else:
                 prop_schema = prop
             attname = prop_schema.get('x-var-name') or key
-            if not valid_attr(attname) or attname in attrs or hasattr(dict, attname):
-                attname = self.get_attname(attname, excludes=list(attrs))
+            if not valid_attr(attname) or attname.startswith('_') or attname in attrs or attname in reserved:
+                attname = self.get_attname(
+                    attname, excludes=list(attrs) + list(reserved) + [k for k in properties if k != key])
             alias = None
             if attname != key:
                 alias = key
